@@ -268,9 +268,31 @@ def text_node(ctx, interp_p=2):
     return ["text", parts]
 
 
+FOREIGN_ATTRS = ["foo:bar", "data-x", "data-x-y", "data-x-y-z", "xml:lang",
+                 "@click", "v-on", "foo:data-a-b", "data-foo-bar",
+                 "data-xml-lang", "data-xmlns-x"]
+REBIND_PREFIXES = ["t", "tal2", "x-tal", "T", "foo2"]
+UNDECLARED_ATTRS = ["v-bind:id", "x:y"]
+
+
 def static_attrs(ctx, maxn=3):
     d = ctx.draw
     out, seen = [], set()
+    if ctx.opts.get("foreign"):
+        pool = FOREIGN_ATTRS + (UNDECLARED_ATTRS if ctx.opts.get(
+            "undeclared") else [])
+        for _ in range(d(st.integers(0, 2))):
+            n = d(st.sampled_from(pool))
+            if n in seen:
+                continue
+            seen.add(n)
+            out.append([d(st.sampled_from([" ", "  "])), n,
+                        d(st.sampled_from(['"', "'"])),
+                        [["lit", d(st.sampled_from(["1", "go()", "a b"]))]]])
+            if ctx.opts.get("dup_attrs") and n not in ATTR_NAMES and \
+                    d(st.integers(0, 3)) == 0:
+                # tag soup: the same attribute written twice
+                out.append([" ", n, '"', [["lit", "dup"]]])
     for _ in range(d(st.integers(0, maxn))):
         name = d(st.sampled_from(ATTR_NAMES))
         if name.lower() in seen:
@@ -298,7 +320,9 @@ def element(ctx, depth):
     ctx.n_elems += 1
     outer_eid = ctx.eid
     ctx.eid = ctx.n_elems
-    el = {"name": d(st.sampled_from(TAGS)), "attrs": static_attrs(ctx),
+    is_ns = bool(ctx.opts.get("ns_elems")) and d(st.integers(0, 5)) == 0
+    el = {"name": d(st.sampled_from(TAGS)),
+          "attrs": [] if is_ns else static_attrs(ctx),
           "stmts": {}, "children": [], "order": d(st.lists(
               st.integers(0, 5), min_size=1, max_size=4)),
           "close_space": d(st.sampled_from(["", "", " "]))}
@@ -307,6 +331,11 @@ def element(ctx, depth):
     kinds = ["define", "condition", "repeat", "switch", "case", "content",
              "replace", "omit-tag", "attributes"]
     chosen = [k for k in kinds if d(st.integers(0, 9)) < want]
+    if is_ns:
+        el["ns"] = True
+        el["name"] = d(st.sampled_from(["block", "omit-tag", "x"]))
+        el["ns_bare"] = d(st.booleans())
+        chosen = [k for k in chosen if k != "attributes"]
     if "content" in chosen and "replace" in chosen:
         chosen.remove(d(st.sampled_from(["content", "replace"])))
     if "case" in chosen and ctx.switch_depth == 0:
@@ -453,11 +482,25 @@ def element(ctx, depth):
                     continue
                 kids.append(t)
             else:
+                if ctx.opts.get("foreign") and d(st.integers(0, 3)) == 0:
+                    # a self-closing sibling that binds a prefix to a
+                    # foreign namespace: the binding ends with the element
+                    kids.append(["elem", {
+                        "name": "br", "stmts": {}, "children": [],
+                        "order": [0], "close_space": "", "selfclose": True,
+                        "attrs": [[" ", "xmlns:" + d(st.sampled_from(
+                            REBIND_PREFIXES)), '"', [["lit", "urn:other"]]]]}])
                 kids.append(["elem", element(ctx, depth - 1)])
         el["children"] = kids
     else:
         if d(st.booleans()):
             el["selfclose"] = True
+            if ctx.opts.get("foreign") and not stmts and not is_ns and \
+                    d(st.integers(0, 1)) == 0:
+                # a self-closing element that binds a prefix to a foreign
+                # namespace: the binding ends with the element
+                el["attrs"].append([" ", "xmlns:" + d(st.sampled_from(
+                    REBIND_PREFIXES)), '"', [["lit", "urn:other"]]])
         else:
             el["children"] = [text_node(ctx)] if d(st.booleans()) else []
     if has_switch:
